@@ -26,20 +26,10 @@ Record cfg := {
 }.
 
 Record devs := {
-  dv_trailer : bool;         (* F10: trailer section not validated as field lines *)
-  dv_empty_chunk_line : bool;(* F11: empty lines where a chunk-size is expected are skipped *)
-  dv_reqline_lf : bool;      (* F9 beyond the RFC's MAY: bare LF and whitespace-only lines stripped around the request line *)
-  dv_te_http10 : bool;       (* F8: Transfer-Encoding on a non-1.1 request does not close the connection *)
-  dv_clte_keepalive : bool;  (* F7: Content-Length + Transfer-Encoding does not close the connection *)
-  dv_conn_list : bool;       (* Connection: close recognised only as the whole field value *)
-  dv_te_ws_element : bool;   (* a whitespace-only Transfer-Encoding list element is not ignored *)
-  dv_target_dslash : bool    (* non-ASCII octets are accepted in a request-target that begins with "//" *)
+  dv_trailer : bool          (* F10: trailer section not validated as field lines *)
 }.
 
-Definition no_devs : devs :=
-  {| dv_trailer := false; dv_empty_chunk_line := false; dv_reqline_lf := false; dv_te_http10 := false;
-     dv_clte_keepalive := false; dv_conn_list := false; dv_te_ws_element := false;
-     dv_target_dslash := false |}.
+Definition no_devs : devs := {| dv_trailer := false |}.
 
 (* ------------------------------------------------------------------ *)
 (* messages and outcomes *)
@@ -172,8 +162,8 @@ Definition target_shape (t : bytes) : bool :=
   nonempty t && forallb (fun x => negb ((x =? 32) || (x =? 13) || (x =? 10))) t.
 
 (* ... of which only ASCII targets with a balanced IP-literal are URIs (RFC 3986) *)
-Definition target_policy (d : devs) (t : bytes) : bool :=
-  forallb (fun x => (x <? 128) || (dv_target_dslash d && startswith t [47; 47])) t
+Definition target_policy (t : bytes) : bool :=
+  forallb (fun x => x <? 128) t
   && match authority_of t with
      | Some a => Bool.eqb (memb 91 a) (memb 93 a)
      | None => true
@@ -199,24 +189,20 @@ Definition request_line_shape (line : bytes) : option (bytes * bytes * bytes) :=
   | _ => None
   end.
 
-Definition parse_request_line (d : devs) (line : bytes) : option (bytes * bytes * bytes) :=
+Definition parse_request_line (line : bytes) : option (bytes * bytes * bytes) :=
   match request_line_shape line with
-  | Some (m, t, v) => if target_policy d t then Some (m, t, v) else None
+  | Some (m, t, v) => if target_policy t then Some (m, t, v) else None
   | None => None
   end.
 
 (* what is done to the raw first line before it is parsed *)
-Definition prepare_request_line (c : cfg) (d : devs) (line : bytes) : bytes :=
-  if dv_reqline_lf d then trim is_py_ws line
-  else if tol_reqline_ws c then trim is_rl_ws line
-  else line.
+Definition prepare_request_line (c : cfg) (line : bytes) : bytes :=
+  if tol_reqline_ws c then trim is_rl_ws line else line.
 
-(* leading lines that are ignored: empty lines (RFC 9112 2.2); under the
-   deviation also lines of Python whitespace only *)
-Fixpoint drop_leading (d : devs) (ls : list bytes) : list bytes :=
+(* leading lines that are ignored: empty lines (RFC 9112 2.2) *)
+Fixpoint drop_leading (ls : list bytes) : list bytes :=
   match ls with
-  | l :: r =>
-    if (if dv_reqline_lf d then forallb is_py_ws l else negb (nonempty l)) then drop_leading d r else ls
+  | l :: r => if nonempty l then ls else drop_leading r
   | [] => []
   end.
 
@@ -343,10 +329,8 @@ Inductive framing :=
 | FrRefuse (code : N).
 
 (* #token list: elements separated by ",", OWS around elements, empty elements ignored (RFC 9110 5.6.1) *)
-Definition list_elems (d : devs) (v : bytes) : list bytes :=
-  if dv_te_ws_element d
-  then map (fun e => to_lower (trim is_ows e)) (filter nonempty (split_on 44 v []))
-  else filter nonempty (map (fun e => to_lower (trim is_ows e)) (split_on 44 v [])).
+Definition list_elems (v : bytes) : list bytes :=
+  filter nonempty (map (fun e => to_lower (trim is_ows e)) (split_on 44 v [])).
 
 Definition max_cl_digits : N := 4300.    (* a longer Content-Length is refused (RFC 9112 6.3: prevent conversion overflows) *)
 
@@ -354,9 +338,9 @@ Definition content_length_of (v : bytes) : option N :=
   if nonempty v && forallb is_dig v && (lenN v <=? max_cl_digits) then Some (dec_value v) else None.
 
 (* [dict] is the combined field section *)
-Definition framing_of (d : devs) (version : bytes) (dict : list (bytes * bytes)) : framing :=
+Definition framing_of (version : bytes) (dict : list (bytes * bytes)) : framing :=
   let te := if beqb version v11
-            then match lookup dict K_TE with Some v => list_elems d v | None => [] end
+            then match lookup dict K_TE with Some v => list_elems v | None => [] end
             else [] in
   match te with
   | _ :: _ =>
@@ -378,21 +362,18 @@ Definition framing_of (d : devs) (version : bytes) (dict : list (bytes * bytes))
   end.
 
 (* must the connection be closed after this message (RFC 9112 6.1, 6.3 clause 3, 9.3, 9.6) *)
-Definition has_option (d : devs) (w : bytes) (v : bytes) : bool :=
-  if dv_conn_list d then beqb (to_lower v) w
-  else existsb (fun e => beqb e w) (list_elems no_devs v).
+Definition has_option (w : bytes) (v : bytes) : bool := existsb (fun e => beqb e w) (list_elems v).
 
-Definition close_after_of (d : devs) (version : bytes) (dict : list (bytes * bytes)) : bool :=
+Definition close_after_of (version : bytes) (dict : list (bytes * bytes)) : bool :=
   let conn := match lookup dict K_CONN with Some v => v | None => [] end in
   if beqb version v11 then
-    has_option d w_close conn
-    || (negb (dv_clte_keepalive d)
-        && match framing_of d version dict with FrChunked => true | _ => false end
+    has_option w_close conn
+    || (match framing_of version dict with FrChunked => true | _ => false end
         && match lookup dict K_CL with Some _ => true | None => false end)
   else
     (* not HTTP/1.1: persistent only on an explicit keep-alive (taken conservatively: the sole option) *)
     negb (beqb (to_lower conn) w_keep_alive)
-    || (negb (dv_te_http10 d) && match lookup dict K_TE with Some _ => true | None => false end).
+    || match lookup dict K_TE with Some _ => true | None => false end.
 
 (* the field section as handed on (RFC 9112 7.1 decoding algorithm): chunked
    is removed from Transfer-Encoding and Content-Length set to the decoded length *)
@@ -460,7 +441,7 @@ Fixpoint read_chunks (fuel : nat) (d : devs) (s : bytes) (total : N) (acc : byte
     | None => ChIncomplete
     | Some (line, rest) =>
       match line with
-      | [] => if dv_empty_chunk_line d then read_chunks f d rest total acc else ChBad total
+      | [] => ChBad total
       | _ =>
         match parse_chunk_line line with
         | None => ChBad total
@@ -513,20 +494,20 @@ Fixpoint ref_loop (fuel : nat) (c : cfg) (d : devs) (s : bytes) : list ref_outco
       | Some (lines, rest, n) =>
         if max_header c <=? n then [Refuse 431]
         else
-          match drop_leading d lines with
+          match drop_leading lines with
           | [] => ref_loop f c d rest                 (* only empty lines: ignored (RFC 9112 2.2) *)
           | rl :: flines =>
             match head_fields flines with
             | None => [Refuse 400]
             | Some fs =>
-              match parse_request_line d (prepare_request_line c d rl) with
+              match parse_request_line (prepare_request_line c rl) with
               | None => [Refuse 400]
               | Some (m, t, v) =>
                 let dict := combined fs in
-                let close := close_after_of d v dict in
+                let close := close_after_of v dict in
                 let continue (o : ref_outcome) (rest' : bytes) :=
                   o :: (if close then [] else ref_loop f c d rest') in
-                match framing_of d v dict with
+                match framing_of v dict with
                 | FrRefuse code => [Refuse code]
                 | FrNone => continue (Deliver (mk_msg m t v fs []) close) rest
                 | FrLength k =>
@@ -558,6 +539,6 @@ Definition ref_run (c : cfg) (s : bytes) : list ref_outcome := ref_run_dev c no_
 
 (* what a delivered message looks like when handed on: the combined field
    section with the framing fields rewritten *)
-Definition delivered_view (d : devs) (m : msg) : list (bytes * bytes) :=
+Definition delivered_view (m : msg) : list (bytes * bytes) :=
   let dict := combined (m_fields m) in
-  delivered_dict (m_version m) dict (framing_of d (m_version m) dict) (m_body m).
+  delivered_dict (m_version m) dict (framing_of (m_version m) dict) (m_body m).
